@@ -153,7 +153,8 @@ Lemma close_half_good : forall c w x c' rm x', conn_ok c -> x_panic x = false ->
   h_closed (get_half c w) = false ->
   (both_closed c = true -> declines cfg (rc_sid c) = true) ->
   close_half v cfg c w x = (c', rm, x') -> good (x_used x - cp c) c' rm x' /\
-  (h_closed (get_half c' w) = true /\ h_queue (get_half c' w) = []) /\ rc_sid c' = rc_sid c.
+  (h_closed (get_half c' w) = true /\ h_queue (get_half c' w) = []) /\
+  (rc_sid c' = rc_sid c /\ get_half c' (negb w) = get_half c (negb w)).
 Proof.
   intros c w x c' rm x' Hok Hp Hnc Hd H. unfold close_half in H. rewrite Hsaved, Hhp in H.
   set (h := get_half c w) in *.
@@ -170,7 +171,7 @@ Proof.
   assert (Hcl : h_closed (get_half (put_half c w h') w) = true /\ h_queue (get_half (put_half c w h') w) = [])
     by (rewrite get_put_same; split; reflexivity).
   destruct (both_closed (put_half c w h')) eqn:Eb; inversion H; subst; clear H;
-    (split; [|split; [exact Hcl|apply sid_put]]); right; cbn [x_used x_panic]; unfold hp in *.
+    (split; [|split; [exact Hcl|split; [apply sid_put|apply get_put_other]]]); right; cbn [x_used x_panic]; unfold hp in *.
   - split; [exact Cok|]. split; [lia|]. split; [intros _; exact Eb|].
     intros Ha _. rewrite sid_put. destruct (declines cfg (rc_sid c)); [reflexivity|discriminate].
   - split; [exact Cok|]. split; [lia|]. split; [discriminate|]. intros _ Hb. congruence.
@@ -180,13 +181,14 @@ Lemma send_conn_good : forall c w h x r0 acts c' rm x' ns,
   half_ok (get_half c (negb w)) -> h_pages h = hp h + extra r0 -> h_closed h = false -> x_panic x = false ->
   send_conn v cfg c w h x r0 acts = (c', rm, x', ns) ->
   good (x_used x - extra r0 - cp (put_half c w h)) c' rm x' /\
-  (x_panic x' = false -> zlen (h_queue (get_half c' w)) <= zlen (h_queue h)) /\ rc_sid c' = rc_sid c.
+  (x_panic x' = false -> zlen (h_queue (get_half c' w)) <= zlen (h_queue h)) /\
+  (rc_sid c' = rc_sid c /\ get_half c' (negb w) = get_half c (negb w)).
 Proof.
   intros c w h x r0 acts c' rm x' ns Hoth Hpg Hnc Hp H. unfold send_conn in H.
   destruct (send v cfg (rc_sid c) (rc_ncalls c) h x r0 acts) as [[[h1 x1] nextSeq] isEnd] eqn:Es.
   pose proof (send_acct _ _ _ _ _ _ _ _ _ _ _ _ Hhp Es) as A.
   destruct (x_panic x1) eqn:Ep1.
-  - inversion H; subst. split; [left; exact Ep1|]. split; [congruence|]. rewrite sid_bump. apply sid_put.
+  - inversion H; subst. split; [left; exact Ep1|]. split; [congruence|]. split; [rewrite sid_bump; apply sid_put|rewrite bump_half; apply get_put_other].
   - destruct A as [A|[A1 [A2 [A3 [A4 A5]]]]]; [congruence|].
     set (c1 := bump_calls (put_half c w h1)) in *.
     assert (Hh1 : half_ok h1). { unfold half_ok. split; [lia|]. intros Hc. congruence. }
@@ -198,22 +200,23 @@ Proof.
     { rewrite (cp_halves _ w), get_put_same, get_put_other. reflexivity. }
     assert (Hg1 : get_half c1 w = h1) by (unfold c1; rewrite bump_half, get_put_same; reflexivity).
     assert (Hs1 : rc_sid c1 = rc_sid c) by (unfold c1; rewrite sid_bump; apply sid_put).
+    assert (Ho1 : get_half c1 (negb w) = get_half c (negb w)) by (unfold c1; rewrite bump_half; apply get_put_other).
     destruct isEnd.
     + destruct (close_half v cfg c1 w x1) as [[c2 rm2] x2] eqn:Ec. inversion H as [[Hc' Hrm Hx' Hns]]; clear H; subst c' rm x' ns.
       assert (Hnb : both_closed c1 = true -> declines cfg (rc_sid c1) = true).
       { rewrite (both_closed_halves c1 w), Hg1. intros Hb. apply andb_true_iff in Hb. destruct Hb as [Hb _]. congruence. }
-      destruct (close_half_good c1 w x1 _ _ _ Cok Ep1 ltac:(rewrite Hg1; congruence) Hnb Ec) as [G [[Gc Gq] Gs]].
-      split; [|split; [|congruence]].
+      destruct (close_half_good c1 w x1 _ _ _ Cok Ep1 ltac:(rewrite Hg1; congruence) Hnb Ec) as [G [[Gc Gq] [Gs Go]]].
+      split; [|split; [|split; congruence]].
       * destruct G as [G|[G1 [G2 [G3 G4]]]]; [left; exact G|right]. split; [exact G1|]. split; [lia|]. split; assumption.
       * intros _. rewrite Gq. rewrite zlen_nil. apply zlen_nonneg.
-    + inversion H as [[Hc' Hrm Hx' Hns]]; clear H; subst c' rm x' ns. split; [|split; [intros _; rewrite Hg1; exact A5|exact Hs1]].
+    + inversion H as [[Hc' Hrm Hx' Hns]]; clear H; subst c' rm x' ns. split; [|split; [intros _; rewrite Hg1; exact A5|split; [exact Hs1|exact Ho1]]].
       right. split; [exact Cok|]. split; [lia|]. split; [discriminate|].
       intros _ Hb. rewrite (both_closed_halves c1 w), Hg1 in Hb. apply andb_true_iff in Hb. destruct Hb as [Hb _]. congruence.
 Qed.
 
 Lemma skip_flush_good : forall c w x c' rm x', cok c -> x_panic x = false -> h_closed (get_half c w) = false ->
   skip_flush v cfg c w x = (c', rm, x') ->
-  good (x_used x - cp c) c' rm x' /\ rc_sid c' = rc_sid c /\
+  good (x_used x - cp c) c' rm x' /\ (rc_sid c' = rc_sid c /\ get_half c' (negb w) = get_half c (negb w)) /\
   (x_panic x' = false -> h_closed (get_half c' w) = true \/ zlen (h_queue (get_half c' w)) < zlen (h_queue (get_half c w))).
 Proof.
   intros c w x c' rm x' [Hok Hd] Hp Hnc H. unfold skip_flush in H.
@@ -226,21 +229,180 @@ Proof.
     pose proof (proj1 (conn_ok_halves c w) Hok) as [[Ok1 Ok1c] Ok2]. fold h in Ok1, Ok1c.
     assert (Hpg : h_pages h1 = hp h1 + extra (CPage p)).
     { unfold hp, extra, h1 in *. cbn. rewrite Eq in Ok1. rewrite zlen_cons in Ok1. lia. }
-    destruct (send_conn_good c w h1 x (CPage p) _ _ _ _ _ Ok2 Hpg Hnc Hp Es) as [G [Gq Gs]].
+    destruct (send_conn_good c w h1 x (CPage p) _ _ _ _ _ Ok2 Hpg Hnc Hp Es) as [G [Gq [Gs Go]]].
     assert (Ccp : cp (put_half c w h1) = cp c - 1).
     { rewrite (cp_halves _ w), get_put_same, get_put_other, (cp_halves c w). fold h. unfold hp, h1. cbn. rewrite Eq, zlen_cons. lia. }
     set (c2 := if nextSeq =? INVALID then c1 else put_half c1 w (set_next (get_half c1 w) nextSeq)).
     assert (Hsame : cp c2 = cp c1 /\ (conn_ok c1 -> conn_ok c2) /\ both_closed c2 = both_closed c1 /\ rc_sid c2 = rc_sid c1 /\
-                    h_queue (get_half c2 w) = h_queue (get_half c1 w) /\ h_closed (get_half c2 w) = h_closed (get_half c1 w)).
-    { unfold c2. destruct (nextSeq =? INVALID); [split; [reflexivity|split; [auto|split; [reflexivity|split; [reflexivity|split; reflexivity]]]]|].
+                    h_queue (get_half c2 w) = h_queue (get_half c1 w) /\ h_closed (get_half c2 w) = h_closed (get_half c1 w) /\
+                    get_half c2 (negb w) = get_half c1 (negb w)).
+    { unfold c2. destruct (nextSeq =? INVALID); [split; [reflexivity|split; [auto|split; [reflexivity|split; [reflexivity|split; [reflexivity|split; reflexivity]]]]]|].
       split; [rewrite (cp_halves _ w), get_put_same, get_put_other, (cp_halves c1 w); reflexivity|].
       split; [intros Hc1; apply (conn_ok_halves _ w); rewrite get_put_same, get_put_other; apply (conn_ok_halves c1 w) in Hc1; exact Hc1|].
       split; [rewrite (both_closed_halves _ w), get_put_same, get_put_other, (both_closed_halves c1 w); reflexivity|].
-      split; [apply sid_put|]. rewrite get_put_same. split; reflexivity. }
-    destruct Hsame as [S1 [S2 [S3 [S4 [S5 S6]]]]].
-    split; [|split; [congruence|]].
+      split; [apply sid_put|]. rewrite get_put_same, get_put_other. split; [reflexivity|split; reflexivity]. }
+    destruct Hsame as [S1 [S2 [S3 [S4 [S5 [S6 S7]]]]]].
+    split; [|split; [split; congruence|]].
     + destruct G as [G|[G1 [G2 [G3 G4]]]]; [left; exact G|right]. cbn [extra is_page] in G2.
       split; [apply S2; exact G1|]. split; [lia|]. rewrite S3, S4. split; assumption.
     + intros Hx. right. rewrite S5. specialize (Gq Hx). unfold h1 in Gq. cbn [h_queue] in Gq. rewrite zlen_cons. lia.
+Qed.
+
+(* state of a connection inside a call: rm = it has been removed from the pool *)
+Definition G (c : rconn) (rm : bool) : Prop :=
+  conn_ok c /\ (rm = true -> both_closed c = true) /\
+  (rm = false -> both_closed c = true -> declines cfg (rc_sid c) = true).
+
+Lemma good_G : forall u c rm x, good u c rm x -> x_panic x = false -> G c rm /\ x_used x - cp c = u.
+Proof. unfold good, G. intros u c rm x [H|H] Hp; [congruence|]. intuition. Qed.
+
+Lemma G_good : forall u c rm x, G c rm -> x_used x - cp c = u -> good u c rm x.
+Proof. unfold good, G. intros. right. intuition. Qed.
+
+Lemma G_open_half : forall c rm w, G c rm -> h_closed (get_half c w) = false -> rm = false /\ cok c.
+Proof.
+  intros c rm w [Hok [H1 H2]] Hnc. destruct rm.
+  - specialize (H1 eq_refl). rewrite (both_closed_halves c w), Hnc in H1. discriminate.
+  - split; [reflexivity|]. split; [exact Hok|exact (H2 eq_refl)].
+Qed.
+
+Lemma fc_loop_good : forall t w fuel c rm x c' rm' x', G c rm -> x_panic x = false ->
+  fc_loop fuel v cfg c w rm x t = (c', rm', x') ->
+  good (x_used x - cp c) c' rm' x' /\ rc_sid c' = rc_sid c /\ get_half c' (negb w) = get_half c (negb w).
+Proof.
+  intros t w. induction fuel as [|f IH]; intros c rm x c' rm' x' HG Hp H; cbn [fc_loop] in H.
+  - inversion H; subst. split; [apply G_good; [exact HG|reflexivity]|split; reflexivity].
+  - destruct (h_closed (get_half c w)) eqn:Ec; cbn [orb] in H.
+    + inversion H; subst. split; [apply G_good; [exact HG|reflexivity]|split; reflexivity].
+    + rewrite Hp in H. destruct (h_queue (get_half c w)) as [|p q] eqn:Eq.
+      * inversion H; subst. split; [apply G_good; [exact HG|reflexivity]|split; reflexivity].
+      * destruct (rp_seen p <? t).
+        -- destruct (G_open_half c rm w HG Ec) as [Hrm Hcok]. subst rm.
+           destruct (skip_flush v cfg c w x) as [[c1 rm1] x1] eqn:Es.
+           destruct (skip_flush_good c w x _ _ _ Hcok Hp Ec Es) as [Gd [[Gs Go] _]]. cbn [orb] in H.
+           destruct (x_panic x1) eqn:Ep1.
+           ++ assert (E : fc_loop f v cfg c1 w rm1 x1 t = (c1, rm1, x1)).
+              { destruct f; cbn [fc_loop]; [reflexivity|]. rewrite Ep1, orb_true_r. reflexivity. }
+              rewrite E in H. inversion H; subst. split; [left; exact Ep1|split; assumption].
+           ++ destruct (good_G _ _ _ _ Gd Ep1) as [G1 U1].
+              destruct (IH c1 rm1 x1 _ _ _ G1 Ep1 H) as [I1 [I2 I3]].
+              split; [rewrite <- U1; exact I1|split; congruence].
+        -- inversion H; subst. split; [apply G_good; [exact HG|reflexivity]|split; reflexivity].
+Qed.
+
+Lemma G_weaken : forall c rm, G c rm -> both_closed c = true \/ rm = false -> forall rm', (rm' = true -> both_closed c = true) -> (rm' = false -> rm = false) -> G c rm'.
+Proof.
+  unfold G. intros c rm [Hok [H1 H2]] _ rm' Ha Hb. split; [exact Hok|]. split; [exact Ha|].
+  intros Hr Hbc. apply H2; [apply Hb; exact Hr|exact Hbc].
+Qed.
+
+Lemma flush_close_good : forall w t tc c rm0 x c' rm' x' fl cl, G c rm0 -> x_panic x = false ->
+  flush_close v cfg c w x t tc = (c', rm', x', fl, cl) ->
+  good (x_used x - cp c) c' (rm0 || rm') x' /\ rc_sid c' = rc_sid c.
+Proof.
+  intros w t tc c rm0 x c' rm' x' fl cl HG Hp H. unfold flush_close in H.
+  destruct (h_closed (get_half c w)) eqn:Ec.
+  - inversion H; subst. rewrite orb_false_r. split; [apply G_good; [exact HG|reflexivity]|reflexivity].
+  - destruct (G_open_half c rm0 w HG Ec) as [Hrm Hcok]. subst rm0. cbn [orb].
+    destruct (fc_loop (S (length (h_queue (get_half c w)))) v cfg c w false x t) as [[c1 rm1] x1] eqn:El.
+    destruct (fc_loop_good t w _ c false x _ _ _ HG Hp El) as [Gd [Gs Go]].
+    destruct (x_panic x1) eqn:Ep1.
+    + inversion H; subst. split; [left; exact Ep1|exact Gs].
+    + destruct (good_G _ _ _ _ Gd Ep1) as [G1 U1].
+      destruct (h_closed (get_half c1 w)) eqn:Ec1.
+      * inversion H; subst. split; [exact Gd|exact Gs].
+      * destruct (h_queue (get_half c1 w)) eqn:Eq1.
+        -- destruct (conn_last_seen c1 <? tc).
+           ++ destruct (G_open_half c1 rm1 w G1 Ec1) as [Hrm1 [Hok1 Hd1]]. subst rm1.
+              destruct (close_half v cfg c1 w x1) as [[c2 rm2] x2] eqn:Ecl. inversion H; subst. cbn [orb].
+              destruct (close_half_good c1 w x1 _ _ _ Hok1 Ep1 Ec1 Hd1 Ecl) as [Gd2 [_ [Gs2 _]]].
+              split; [rewrite <- U1; exact Gd2|congruence].
+           ++ inversion H; subst. split; [exact Gd|exact Gs].
+        -- inversion H; subst. split; [exact Gd|exact Gs].
+Qed.
+
+Lemma flush_conn_good : forall t tc c x c' rm x' a b, cok c -> x_panic x = false ->
+  flush_conn v cfg t tc c x = (c', rm, x', a, b) ->
+  good (x_used x - cp c) c' rm x' /\ rc_sid c' = rc_sid c.
+Proof.
+  intros t tc c x c' rm x' a b [Hok Hd] Hp H. unfold flush_conn in H.
+  assert (G0 : G c false) by (split; [exact Hok|split; [discriminate|intros _; exact Hd]]).
+  destruct (flush_close v cfg c false x t tc) as [[[[c1 rm1] x1] f1] k1] eqn:E1.
+  destruct (flush_close_good false t tc c false x _ _ _ _ _ G0 Hp E1) as [Gd1 Gs1]. cbn [orb] in Gd1.
+  destruct (x_panic x1) eqn:Ep1.
+  - inversion H; subst. split; [left; exact Ep1|exact Gs1].
+  - destruct (good_G _ _ _ _ Gd1 Ep1) as [G1 U1].
+    destruct (flush_close v cfg c1 true x1 t tc) as [[[[c2 rm2] x2] f2] k2] eqn:E2.
+    destruct (flush_close_good true t tc c1 rm1 x1 _ _ _ _ _ G1 Ep1 E2) as [Gd2 Gs2].
+    inversion H; subst; clear H. split; [|congruence].
+    destruct Gd2 as [Gd2|[K1 [K2 [K3 K4]]]]; [left; exact Gd2|right].
+    split; [exact K1|]. split; [lia|].
+    destruct (both_closed c' && (h_seen (rc_s2c c') <? tc) && (h_seen (rc_c2s c') <? tc)) eqn:E3.
+    + rewrite orb_true_r. split; [intros _|discriminate].
+      apply andb_true_iff in E3. destruct E3 as [E3 _]. apply andb_true_iff in E3. apply E3.
+    + rewrite orb_false_r. split; assumption.
+Qed.
+
+Lemma fa_loop_good : forall w fuel c rm x c' rm' x', G c rm -> x_panic x = false ->
+  fa_loop fuel v cfg c w rm x = (c', rm', x') ->
+  good (x_used x - cp c) c' rm' x' /\ rc_sid c' = rc_sid c /\
+  (x_panic x' = false ->
+     get_half c' (negb w) = get_half c (negb w) /\
+     ((length (h_queue (get_half c w)) < fuel)%nat -> h_closed (get_half c' w) = true)).
+Proof.
+  intros w. induction fuel as [|f IH]; intros c rm x c' rm' x' HG Hp H; cbn [fa_loop] in H.
+  - inversion H; subst. split; [apply G_good; [exact HG|reflexivity]|]. split; [reflexivity|]. intros _. split; [reflexivity|lia].
+  - destruct (h_closed (get_half c w)) eqn:Ec; cbn [orb] in H.
+    + inversion H; subst. split; [apply G_good; [exact HG|reflexivity]|]. split; [reflexivity|]. intros _. split; [reflexivity|intros _; exact Ec].
+    + rewrite Hp in H. destruct (G_open_half c rm w HG Ec) as [Hrm Hcok]. subst rm.
+      destruct (skip_flush v cfg c w x) as [[c1 rm1] x1] eqn:Es. cbn [orb] in H.
+      destruct (skip_flush_good c w x _ _ _ Hcok Hp Ec Es) as [Gd [[Gs Go] Gp]].
+      destruct (x_panic x1) eqn:Ep1.
+      * assert (E : fa_loop f v cfg c1 w rm1 x1 = (c1, rm1, x1)).
+        { destruct f; cbn [fa_loop]; [reflexivity|]. rewrite Ep1, orb_true_r. reflexivity. }
+        rewrite E in H. inversion H; subst. split; [left; exact Ep1|]. split; [exact Gs|]. intros Hx. congruence.
+      * destruct (good_G _ _ _ _ Gd Ep1) as [G1 U1].
+        destruct (IH c1 rm1 x1 _ _ _ G1 Ep1 H) as [I1 [I2 I3]].
+        split; [rewrite <- U1; exact I1|]. split; [congruence|].
+        intros Hx. destruct (I3 Hx) as [J1 J2]. split; [congruence|]. intros Hl.
+        destruct (Gp eq_refl) as [Hc1|Hlt].
+        -- (* half closed by skipFlush: the rest of the loop returns at once *)
+           assert (E : fa_loop f v cfg c1 w rm1 x1 = (c1, rm1, x1)).
+           { destruct f; cbn [fa_loop]; [reflexivity|]. rewrite Hc1. reflexivity. }
+           rewrite E in H. inversion H; subst. exact Hc1.
+        -- apply J2. unfold zlen in Hlt. lia.
+Qed.
+
+Lemma flush_all_conn_good : forall c x c' rm x' a b, cok c -> x_panic x = false ->
+  flush_all_conn v cfg c x = (c', rm, x', a, b) ->
+  good (x_used x - cp c) c' rm x' /\ rc_sid c' = rc_sid c /\ (x_panic x' = false -> both_closed c' = true).
+Proof.
+  intros c x c' rm x' a b [Hok Hd] Hp H. unfold flush_all_conn in H.
+  assert (G0 : G c false) by (split; [exact Hok|split; [discriminate|intros _; exact Hd]]).
+  destruct (fa_loop (S (S (length (h_queue (rc_s2c c))))) v cfg c false false x) as [[c1 rm1] x1] eqn:E1.
+  destruct (fa_loop_good false _ c false x _ _ _ G0 Hp E1) as [Gd1 [Gs1 Gc1]].
+  destruct (x_panic x1) eqn:Ep1.
+  - inversion H; subst. split; [left; exact Ep1|]. split; [exact Gs1|]. intros Hx. congruence.
+  - destruct (good_G _ _ _ _ Gd1 Ep1) as [G1 U1].
+    destruct (fa_loop (S (S (length (h_queue (rc_c2s c1))))) v cfg c1 true false x1) as [[c2 rm2] x2] eqn:E2.
+    assert (G1' : G c1 false \/ rm1 = true).
+    { destruct rm1; [right; reflexivity|left; exact G1]. }
+    (* the second loop starts from the removal status of the first *)
+    assert (L2 : good (x_used x1 - cp c1) c2 (rm1 || rm2) x2 /\ rc_sid c2 = rc_sid c1 /\
+                 (x_panic x2 = false -> get_half c2 false = get_half c1 false /\ h_closed (get_half c2 true) = true)).
+    { destruct rm1.
+      - (* already removed: both halves are closed, the loop does nothing *)
+        destruct G1 as [K1 [K2 K3]]. specialize (K2 eq_refl).
+        assert (Hc : h_closed (get_half c1 true) = true).
+        { rewrite (both_closed_halves c1 true) in K2. apply andb_true_iff in K2. apply K2. }
+        cbn [fa_loop] in E2. rewrite Hc in E2. cbn [orb] in E2. inversion E2; subst.
+        split; [apply G_good; [split; [exact K1|split; [intros _; exact K2|discriminate]]|reflexivity]|].
+        split; [reflexivity|]. intros _. split; [reflexivity|exact Hc].
+      - destruct (fa_loop_good true _ c1 false x1 _ _ _ G1 Ep1 E2) as [Gd2 [Gs2 Gc2]]. cbn [orb].
+        split; [exact Gd2|]. split; [exact Gs2|]. intros Hx. destruct (Gc2 Hx) as [J1 J2]. split; [exact J1|apply J2; cbn [get_half]; lia]. }
+    destruct L2 as [Gd2 [Gs2 Gc2]].
+    inversion H; subst; clear H. split; [rewrite <- U1; exact Gd2|]. split; [congruence|].
+    intros Hx. destruct (Gc2 Hx) as [J1 J2]. destruct (Gc1 eq_refl) as [_ J3].
+    rewrite (both_closed_halves c' true), J2. cbn [negb andb]. rewrite J1. apply J3. cbn [get_half]. lia.
 Qed.
 End Fixed.
